@@ -1,7 +1,7 @@
 #!/bin/bash
-# evaluate all available seeded changes, properties in parallel (each property: A then B)
+# re-confirm and re-evaluate all seeded changes of the given properties (properties in parallel; A then B)
 mkdir -p /tmp/seedlogs
 for P in "$@"; do
-  ( for V in A B; do [ -f /tmp/seed/${P}_out/$V.patch.diff ] && /verif/selftest/seed_eval.sh $P $V > /tmp/seedlogs/$P-$V.log 2>&1; done ) &
+  ( for V in A B; do [ -f /verif/seeded/$P-$V/patch.diff ] && /verif/selftest/seed_eval.sh $P $V > /tmp/seedlogs/$P-$V.log 2>&1; done ) &
 done
 wait
